@@ -611,6 +611,47 @@ class World(object):
         b = self.cont(bh)
         return self._call(lambda: (a == b, b == a, a != b, b != a), lambda t: list(t))
 
+    def op_compare_cli(self, ah, bh, fmt, fmt2=None):
+        """scripts/prov-compare run in-process on two files holding the documents."""
+        import os, runpy, shutil, sys, tempfile, contextlib, io as _io
+        from . import boot as _boot
+
+        a, b = self.doc(ah), self.doc(bh)
+        script = os.path.join(_boot.REPO, "scripts", "prov-compare")
+
+        def thunk():
+            d = tempfile.mkdtemp(prefix="provsim-cli-")
+            try:
+                f2 = fmt2 or fmt
+                fa, fb = os.path.join(d, "a." + fmt), os.path.join(d, "b." + f2)
+                for doc, path, ff in ((a, fa, fmt), (b, fb, f2)):
+                    with open(path, "w", encoding="utf-8") as f:
+                        f.write(doc.serialize(format=ff))
+                # what the two files denote, read by the library (fidelity is C01/C02's business)
+                from prov.model import ProvDocument
+                da = ProvDocument.deserialize(source=fa, format=fmt)
+                db = ProvDocument.deserialize(source=fb, format=f2)
+                argv = sys.argv
+                sys.argv = [script, fa, fb, "-f", fmt, "-F", f2]
+                err = _io.StringIO()
+                try:
+                    with contextlib.redirect_stderr(err), contextlib.redirect_stdout(_io.StringIO()):
+                        runpy.run_path(script, run_name="__main__")
+                    code = 0
+                except SystemExit as e:
+                    code = e.code
+                finally:
+                    sys.argv = argv
+                if code is None or code is False:
+                    code = 0
+                elif code is True:
+                    code = 1
+                return (code, da, db)
+            finally:
+                shutil.rmtree(d, ignore_errors=True)
+
+        return self._call(thunk, lambda t: t[0])
+
     def op_req(self, ra, rb):
         a = self.rec(ra)
         b = self.rec(rb)
